@@ -86,6 +86,33 @@ Theorem c15_reawait_misses_none : forall g s r ops,
 Proof. exact reawait_misses_none. Qed.
 Print Assumptions c15_reawait_misses_none.
 
+(* Run level: for every op sequence from the initial state (any ops, also discarded results, kept suspend points,
+   hook-up), no listener id occurs twice among the chain, the ready queue and the kept suspend points — a listener is
+   never subscribed / queued / held twice. *)
+Theorem c15_unique_ids : forall coro vd ops, NoDup (ids (snd (run_from (st0 coro vd) ops))).
+Proof. exact unique_ids. Qed.
+Print Assumptions c15_unique_ids.
+
+(* ... hence exactly once at run level: after ANY op sequence, a collector call from ordinary code or an awaited one
+   (nothing pending) delivers without repetition, exactly to the listeners in the chain, exactly the emitted value. *)
+Theorem c15_exactly_once : forall coro vd ops kind awaited v,
+  let s := snd (run_from (st0 coro vd) ops) in
+  let r := step s (OEmit kind awaited v) in
+  o_st (snd r) = 0 -> (m_coro s = false \/ awaited = true) -> not_ready (queue s) ->
+  NoDup (delivs (o_ev (snd r))) /\
+  (forall i w, In (i, w) (delivs (o_ev (snd r))) <-> In i (cids (chain s)) /\ w = emitted s v).
+Proof. exact exactly_once. Qed.
+Print Assumptions c15_exactly_once.
+
+(* A suspend point kept in a variable and destroyed with nothing in between behaves exactly like a discarded one. *)
+Theorem c15_hold_release : forall s kind v s1 o1 s2 o2 s' o,
+  held s = [] ->
+  step s (OEmitHold kind v) = (s1, o1) -> o_st o1 = 0 -> step s1 ORelease = (s2, o2) ->
+  step s (OEmit kind false v) = (s', o) ->
+  s2 = s' /\ o_st o = 0 /\ o_ev o1 ++ o_ev o2 = o_ev o /\ o_ret o1 = o_ret o.
+Proof. exact hold_release. Qed.
+Print Assumptions c15_hold_release.
+
 (* Subscribers on other threads against the collector's exchanges, every schedule, any number of subscribers and
    exchanges, every CAS attempt its own step: the rounds the collector took plus the chain contain exactly the
    subscribers whose CAS succeeded, each exactly once (never lost, never doubled); so a subscriber that published
@@ -128,6 +155,16 @@ Example c15_nonvacuous :
   delivs (o_ev (snd (step s (OEmit 0 true 8)))) = [(2%nat, 8); (1%nat, 8); (5%nat, 8)] /\
   strong s = 1%nat /\ freeds (o_ev (snd (step s ODrop))) = [2%nat].
 Proof. vm_compute. repeat split; try reflexivity. intros it [H|[]]. subst it. reflexivity. Qed.
+
+(* hook_up_emitter (first op of a case): with the collector kept, listener 1 is subscribed to a state whose only handle is
+   the driver's and receives what is emitted; with the collector dropped the state dies inside the first await and the
+   listener is cancelled (at once from ordinary code, at the driver's next suspension in a coroutine) *)
+Example c15_hook_up :
+  flat_map o_ev (fst (run_from (st0 false false) [OHookUp 1 0 false 1 true; OEmit 0 false 5; ODrop]))
+    = [EAwait 1; ERecv 1 5; EAwait 1; ECancel 1 1; EAwait 1; ECancel 1 0; EFin 1] /\
+  flat_map o_ev (fst (run_from (st0 false false) [OHookUp 1 0 false 0 false])) = [EAwait 1; ECancel 1 0; EFin 1] /\
+  map o_ev (fst (run_from (st0 true false) [OHookUp 1 0 false 0 false; OPause])) = [[EAwait 1]; [ECancel 1 0; EFin 1]].
+Proof. vm_compute. repeat split. Qed.
 
 (* non-vacuity of c15_reawait_misses_none: the initial state meets its hypotheses (both driver modes) *)
 Example c15_reawait_nonvacuous : forall coro vd,
